@@ -26,6 +26,7 @@ type CEnv struct {
 	pc      *PkgContracts
 	cl      *Clause
 	depth   int
+	boundNames map[string]bool
 }
 
 func (ex *Exec) envFor(fr *Frame, st, old *State, over map[ssa.Value]Val) *CEnv {
@@ -47,6 +48,10 @@ func (e *CEnv) sub() *CEnv {
 	n.vars = make(map[string]Val, len(e.vars))
 	for k, v := range e.vars {
 		n.vars[k] = v
+	}
+	n.boundNames = make(map[string]bool, len(e.boundNames))
+	for k := range e.boundNames {
+		n.boundNames[k] = true
 	}
 	return &n
 }
@@ -117,11 +122,13 @@ func (e *CEnv) eval(x Expr) Val {
 	case *ELet:
 		s := e.sub()
 		s.vars[n.Var] = e.eval(n.Val)
+		s.boundNames[n.Var] = true
 		return s.eval(n.Body)
 	case *EQuant:
 		s := e.sub()
 		bv := c.Var("q!"+n.Var, smt.Int)
 		s.vars[n.Var] = Val{T: tInt, Tm: bv}
+		s.boundNames[n.Var] = true
 		body := s.eval(n.Body)
 		if body.Tm == nil || body.Tm.Sort != smt.Bool {
 			e.fail("quantifier body is not boolean")
@@ -275,6 +282,18 @@ func isNilVal(v Val) bool { return v.T == types.Typ[types.UntypedNil] }
 
 func (e *CEnv) ident(name string) Val {
 	c := e.ex.W.C
+	if e.boundNames[name] {
+		if v, ok := e.vars[name]; ok {
+			return v
+		}
+	}
+	if e.fr != nil && e.atBlock != nil {
+		// inside a function body (loop invariant, exit assertion): the current value of a reassigned
+		// parameter or local takes precedence over the parameter's entry value
+		if v, ok := e.lookupLocal(name); ok {
+			return v
+		}
+	}
 	if v, ok := e.vars[name]; ok {
 		return v
 	}
@@ -477,7 +496,7 @@ func (e *CEnv) selector(n *ESel) Val {
 		for _, f := range path {
 			a = a.extend(Step{Field: f})
 		}
-		return e.ex.loadedQuiet(ft, e.ex.load(e.st, a))
+		return e.heapFacts(e.ex.loadedQuiet(ft, e.ex.load(e.st, a)))
 	}
 	stt, ok := t.Underlying().(*types.Struct)
 	if !ok {
@@ -505,6 +524,18 @@ func (e *CEnv) tryLocal(name string) (Val, bool) {
 		return Val{}, false
 	}
 	return e.lookupLocal(name)
+}
+
+// heapFacts records the well-formedness facts of a value read from the heap inside a specification:
+// machine-integer ranges and "every stored reference lies below the allocation frontier of that state".
+// These hold in every reachable Go heap, so assuming them is sound; terms under a binder are skipped.
+func (e *CEnv) heapFacts(v Val) Val {
+	if v.Tm == nil || v.Tm.IsOpen() || v.Tm.Kind == smt.KLit {
+		return v
+	}
+	e.ex.assume(e.ex.W.WF(v.T, v.Tm, 0))
+	e.ex.boundPtr(v, e.st)
+	return v
 }
 
 // loadedQuiet wraps a loaded value without adding assumptions (contract evaluation must not assume).
@@ -539,7 +570,7 @@ func (e *CEnv) index(base, idx Val) Val {
 	case *types.Slice:
 		arr, off, _, _ := e.ex.sliceParts(base.Tm)
 		h := e.ex.heapGet(e.st, e.ex.keyElem(bt.Elem()))
-		return Val{T: bt.Elem(), Tm: c.Select(c.Select(h, arr), c.Add(off, idx.Tm))}
+		return e.heapFacts(Val{T: bt.Elem(), Tm: c.Select(c.Select(h, arr), c.Add(off, idx.Tm))})
 	case *types.Array:
 		return Val{T: bt.Elem(), Tm: c.Select(base.Tm, idx.Tm)}
 	case *types.Basic:
